@@ -86,7 +86,7 @@ claim("C01",
       "proved for the model and evaluated in Coq on the identifiers parsed back (go/parser) from the real files. "
       "gounions is modelled in full as a traversal (Model/GoUnionsGen.v: which declarations are emitted, in which order, with the types, constants, methods and wrapper types each one declares or mentions, and the refusals): "
       "theorems for every program - the output is closed under the wrapper types it mentions without a package, methods have local receivers, only <Union>Wrapper types are declared and distinct unions get distinct wrappers - and the model's list is compared "
-      "with the list of the real generator, declaration by declaration, on every module.",
+      "with the list of the real generator, declaration by declaration, on every module. randdata likewise (Model/RandGen.v, Proofs/C01r.v): every function rand<X>() a generated function calls is declared by the output, recursive types included, with no premise; the model's function list, order and calls are compared with the real ones.",
       "Partial by nature: Go's type system is not formalised in Coq; the obligations proved do not imply compilation - the go/types oracle does, on the cases run. github.com/lib/pq is replaced by an API-compatible stand-in (not available offline).",
       "go/types + goimports oracle on real outputs; Coq proof of template obligations + identifier correspondence", "DESIGN.md §5 C01")
 
